@@ -1,4 +1,5 @@
 import TxV.Proofs.Simultaneous
+import TxV.Proofs.SimultaneousShape
 /-!
 # C12 — `condition()` picks one admissible branch
 
@@ -36,25 +37,25 @@ namespace TxV.Core
 variable {D : Design} {v : Val} {S : Sched} {run : Nat → Bool} {U : CondUse} {L : List Nat}
   {Dr : List (Nat × List Nat)}
 
--- OBLIGATION c12_branch_needs : sentence 1, every post-merge design with ShapeC12 (driver-checked per design; proved for the basic family), every valuation/run assignment with the core cycle facts: a running branch ⇒ the enclosing body runs ∧ the branch's condition (= its ready) holds ∧ every method of its static call tree is ready
+-- OBLIGATION c12_branch_needs : sentence 1 (PARTIAL for nested / in-method / multi-caller uses: the added hypothesis ShapeC12 is checked there per generated design by the driver; it is proved for the basic family, see simultaneous_shape_basic and c12_basic_family), every post-merge design with ShapeC12 (driver-checked per design; proved for the basic family), every valuation/run assignment with the core cycle facts: a running branch ⇒ the enclosing body runs ∧ the branch's condition (= its ready) holds ∧ every method of its static call tree is ready
 theorem c12_branch_needs (hA : Accepted D S) (hC : Cycle D v S run) (hS : ShapeC12 D U L Dr)
     (hl : LinkEn D v run L) (hd : DerEn v run Dr) {b : Nat} (hb : b ∈ U.branches) (hr : run b = true) :
     run U.parent = true ∧ v.ready b = true ∧ ∀ m, Reaches D b m → v.ready m = true :=
   branch_needs hA hC hS hl hd hb hr
 
--- OBLIGATION c12_one : sentence 2: two running branches of one condition() are the same branch (their merged transactions share the exclusive method made from the parent's caller, hence a conflict edge, hence mutual exclusion by either scheduler)
+-- OBLIGATION c12_one : sentence 2 (same added hypothesis ShapeC12): two running branches of one condition() are the same branch (their merged transactions share the exclusive method made from the parent's caller, hence a conflict edge, hence mutual exclusion by either scheduler)
 theorem c12_one (hA : Accepted D S) (hC : Cycle D v S run) (hS : ShapeC12 D U L Dr) {b b' : Nat}
     (hb : b ∈ U.branches) (hb' : b' ∈ U.branches) (hr : run b = true) (hr' : run b' = true) : b = b' :=
   one_branch hA hC hS hb hb' hr hr'
 
--- OBLIGATION c12_default : sentence 3: the catch-all branch (last branch of a use with a default) runs only if no other branch's condition holds (DefaultReady: ready = ~any(conds), simultaneous.py:78)
+-- OBLIGATION c12_default : sentence 3 (same added hypothesis ShapeC12; DefaultReady is the model of simultaneous.py:78, compared with the real ready bit on every valuation): the catch-all branch (last branch of a use with a default) runs only if no other branch's condition holds (DefaultReady: ready = ~any(conds), simultaneous.py:78)
 theorem c12_default (hA : Accepted D S) (hC : Cycle D v S run) (hS : ShapeC12 D U L Dr)
     (hl : LinkEn D v run L) (hd : DerEn v run Dr) (hdr : DefaultReady v U) (hdef : U.hasDefault = true)
     {d : Nat} (hlast : U.branches.getLast? = some d) (hr : run d = true) :
     ∀ b ∈ U.branches.dropLast, v.ready b = false :=
   default_needs hA hC hS hl hd hdr hdef hlast hr
 
--- OBLIGATION c12_parent : sentence 4, blocking form: whenever the enclosing body runs, one of the branches of the use runs (for nonblocking=True without an explicit default, condition() itself appends an empty catch-all branch, simultaneous.py:93-95, which is a branch of the use)
+-- OBLIGATION c12_parent : sentence 4, blocking form (same added hypothesis ShapeC12): whenever the enclosing body runs, one of the branches of the use runs (for nonblocking=True without an explicit default, condition() itself appends an empty catch-all branch, simultaneous.py:93-95, which is a branch of the use)
 theorem c12_parent (hA : Accepted D S) (hC : Cycle D v S run) (hS : ShapeC12 D U L Dr)
     (hl : LinkEn D v run L) (hd : DerEn v run Dr) (hr : run U.parent = true) :
     ∃ b ∈ U.branches, run b = true :=
@@ -104,8 +105,75 @@ theorem c12_shape_checker_sound (hb : Bounded D) :
     (defaultReadyB v U = true → DefaultReady v U) :=
   ⟨shapeC12B_sound hb, nbrOkB_sound, linkEnB_sound, derEnB_sound, defaultReadyB_sound⟩
 
+-- OBLIGATION simultaneous_shape_basic : the shape hypothesis is PROVED for the basic family, for every n >= 1, with and without priority, with and without a catch-all: whenever the executable model of _simultaneous (TxV.Simul.simultaneous, compared with the real _simultaneous on every generated design) succeeds on the pre-merge design of "one transaction containing condition() with n branches" (TxV.Simul.basicPre), its result satisfies ShapeC12 with all merged calls unconditional (the groups are exactly the pairs {parent, branch_i}: closure_sound/closure_complete on the worklist loop); success itself is shown for concrete n by evaluation (example below) and on every generated design by the driver
+theorem simultaneous_shape_basic (n : Nat) (prio hd : Bool) (hn : 0 < n) {R : Simul.MergeOut}
+    (h : Simul.simultaneous (Simul.basicPre n prio) 0 = .ok R) :
+    ShapeC12 (Bridge.toAbs R.D) ⟨0, (List.range n).map (· + 1), hd, prio⟩
+      (Simul.linkSites R.D R.enDeps 0) R.enDeps :=
+  Simul.simultaneous_shape_basic n prio hd hn h
+
+-- OBLIGATION c12_basic_family : sentences 1, 2 and 4 WITHOUT a shape hypothesis for the basic family (one transaction, n >= 1 branches, any priority flag): from the executable models alone (model of _simultaneous succeeds, manager model accepts the merged design, the implementation's order passes validOrder) and the per-valuation checks cycleOk / linkEnB / derEnB: a running branch implies the running parent and the branch's condition; two running branches coincide; the running parent implies a running branch
+theorem c12_basic_family (n : Nat) (prio hd : Bool) (hn : 0 < n) {R : Simul.MergeOut} {E : CoreModel.Elab}
+    {order : List Nat} {vm : CoreModel.Val} {r : Nat → Bool}
+    (h : Simul.simultaneous (Simul.basicPre n prio) 0 = .ok R) (hel : CoreModel.elaborate R.D = .ok E)
+    (hvo : CoreModel.validOrder E.g.before R.D.transactions order = true)
+    (hcy : Bridge.cycleOk R.D E order vm r = true)
+    (hl : linkEnB (Bridge.toAbs R.D) (Bridge.toVal R.D vm) (Bridge.runAll E vm r) (Simul.linkSites R.D R.enDeps 0) = true)
+    (hde : derEnB (Bridge.toVal R.D vm) (Bridge.runAll E vm r) R.enDeps = true) :
+    (∀ b, 1 ≤ b → b ≤ n → Bridge.runAll E vm r b = true → Bridge.runAll E vm r 0 = true ∧ vm.ready b = true) ∧
+    (∀ b b', 1 ≤ b → b ≤ n → 1 ≤ b' → b' ≤ n → Bridge.runAll E vm r b = true → Bridge.runAll E vm r b' = true → b = b') ∧
+    (Bridge.runAll E vm r 0 = true → ∃ b, 1 ≤ b ∧ b ≤ n ∧ Bridge.runAll E vm r b = true) := by
+  obtain ⟨hA, _, _, hC, _⟩ := model_hyps hel hvo hcy
+  have hS := Simul.simultaneous_shape_basic n prio hd hn h
+  have hL := linkEnB_sound hl
+  have hD := derEnB_sound hde
+  have hbr : ∀ b, b ∈ (List.range n).map (· + 1) ↔ 1 ≤ b ∧ b ≤ n := by
+    intro b; simp only [List.mem_map, List.mem_range]
+    constructor
+    · rintro ⟨a, ha, rfl⟩; omega
+    · rintro ⟨h1, h2⟩; exact ⟨b - 1, by omega, by omega⟩
+  refine ⟨?_, ?_, ?_⟩
+  · intro b h1 h2 hr
+    have := branch_needs hA hC hS hL hD ((hbr b).2 ⟨h1, h2⟩) hr
+    exact ⟨this.1, this.2.1⟩
+  · intro b b' h1 h2 h1' h2' hr hr'
+    exact one_branch hA hC hS ((hbr b).2 ⟨h1, h2⟩) ((hbr b').2 ⟨h1', h2'⟩) hr hr'
+  · intro hr
+    obtain ⟨b, hb, hrb⟩ := parent_needs_branch hA hC hS hL hD hr
+    obtain ⟨h1, h2⟩ := (hbr b).1 hb
+    exact ⟨b, h1, h2, hrb⟩
+
+/-- non-vacuity: `condition(m, priority=True)` with two branches in one transaction.  The model of
+`_simultaneous` succeeds, the manager model accepts the merged design, and in the cycle where everything
+is ready all hypotheses of the theorems hold (`validOrder`, `cycleOk`, `shapeC12B`, `nbrOkB`, `linkEnB`,
+`derEnB`), the parent and the first branch run, the second branch does not -/
+def nvC12 : Bool :=
+  match Simul.simultaneous (Simul.basicPre 2 true) 0 with
+  | .ok R =>
+    match CoreModel.elaborate R.D with
+    | .ok E =>
+      let v : CoreModel.Val := ⟨fun _ => true, fun _ => true, fun _ => 0, fun _ => 0⟩
+      let run := CoreModel.evalEager R.D E v [3, 4]
+      CoreModel.validOrder E.g.before R.D.transactions [3, 4] &&
+      Bridge.cycleOk R.D E [3, 4] v run &&
+      shapeC12B (Bridge.toAbs R.D) ⟨0, [1, 2], false, true⟩ (Simul.linkSites R.D R.enDeps 0) R.enDeps &&
+      nbrOkB (Bridge.toAbs R.D) (Bridge.toSched E [3, 4]) ⟨0, [1, 2], false, true⟩ &&
+      linkEnB (Bridge.toAbs R.D) (Bridge.toVal R.D v) (Bridge.runAll E v run) (Simul.linkSites R.D R.enDeps 0) &&
+      derEnB (Bridge.toVal R.D v) (Bridge.runAll E v run) R.enDeps &&
+      Bridge.runAll E v run 0 && Bridge.runAll E v run 1 && !Bridge.runAll E v run 2
+    | .error _ => false
+  | .error _ => false
+
+example : nvC12 = true := by decide +kernel
+
+/-- non-vacuity of `simultaneous_shape_basic`: the model succeeds on the family for n = 1, 2, 3, 4 -/
+example : ((List.range 4).all fun k => (Simul.simultaneous (Simul.basicPre (k + 1) (k % 2 == 0)) 0).toOption.isSome) = true := by
+  decide +kernel
+
 end TxV.Core
 
+#print axioms TxV.Core.simultaneous_shape_basic
+#print axioms TxV.Core.c12_basic_family
 #print axioms TxV.Core.c12_branch_needs
 #print axioms TxV.Core.c12_one
 #print axioms TxV.Core.c12_default
